@@ -114,6 +114,14 @@ theorem alloc_new (hc : q.dataPageIndex ∈ mem.dataLive) (hl : len ≤ dataPage
   · refine ⟨?_, ?_, (acquireData_live _ _ _).2 (Or.inl rfl)⟩ <;> dsimp only <;> omega
   · refine ⟨?_, ?_, hc⟩ <;> dsimp only <;> omega
 
+/-- region `e` ends at or below the end of region `last` -/
+def TopOf (last e : Entry) : Prop :=
+  e.pg < last.pg ∨ (e.pg = last.pg ∧ e.off + e.len ≤ last.off + last.len)
+
+theorem alloc_above {e : Entry} (h : Below q e) :
+    TopOf ⟨(alloc mem q len).pg, (alloc mem q len).off, len⟩ e := by
+  unfold alloc Below TopOf at *; split <;> simp only [] <;> omega
+
 theorem alloc_disj {e : Entry} (h : Below q e) :
     Disj e ⟨(alloc mem q len).pg, (alloc mem q len).off, len⟩ := by
   unfold alloc Below Disj at *; split <;> simp only [] <;> omega
